@@ -81,6 +81,12 @@ def construct_expression_tree(
         if len(expression_ast) == 1:
             return AnyNode(id=str(extracted_function), value=extracted_function)
 
+        if len(set(expression_ast[1:])) != len(expression_ast[1:]):
+            # the signature is keyed by the argument names so a repeated argument cannot be represented.
+            raise SyntaxError(
+                f"Functions with a repeated argument are not supported - {expression_ast}"
+            )
+
         new_function = PDDLFunction(
             name=function_name,
             signature={
